@@ -1299,7 +1299,13 @@ def _bh_rid(s):
 
 
 def _queue_suffix(s):
-    return mk_bool(z3.SuffixOf(seq_term(s.self._wait_queue), seq_term(s.old(s.self)._wait_queue)))
+    """the queue afterwards is the old queue without its first `taken` entries (stated entry by entry: the sequence
+    solver is slow on suffixof over slices)"""
+    new_t, old_t = seq_term(s.self._wait_queue), seq_term(s.old(s.self)._wait_queue)
+    n = slen(s.self._wait_queue)
+    taken = slen(s.old(s.self)._wait_queue) - n
+    return (taken >= 0) & forall(Int, lambda i: implies((0 <= i) & (i < n), mk_bool(
+        seq_nth(new_t, zi(i)) == seq_nth(old_t, zi(i) + zi(taken)))), "i")
 
 
 def _tpq_started(s):
@@ -1320,7 +1326,10 @@ TPQ = [(Bulkhead, "_try_process_queued")]
 fn(Bulkhead, "_try_process_queued", inv=False, uses=FWD + TPQ, returns=Opt(Seq(Ref(Event))),
    modifies=["_wait_queue", "_timed_out_requests", "_next_request_id", "_active_count", "_accepted_requests",
              "_peak_concurrent", "_in_flight"],
-   requires=_bh_inv(*_BH_CORE),
+   requires=_bh_inv(*_BH_CORE) + [
+       # called when one permit has just been freed: the state before that satisfied no-request-waits-while-a-permit-is-free
+       ("at-most-one-permit-is-free-while-requests-wait", lambda s: (slen(s.self._wait_queue) == 0)
+           | (s.self._active_count >= s.self._max_concurrent - 1))],
    ensures=_bh_inv(*_BH_CORE, "no-request-waits-while-a-permit-is-free") + [
        ("queued-requests-start-in-arrival-order", _queue_suffix),
        ("starts-at-most-one-request-into-a-free-permit", lambda s:
